@@ -88,7 +88,7 @@ Tags(S, o, a) ==
    \cup (IF k \in {"pub", "ppub", "addb"} /\ (\E i \in DOMAIN a.ev : a.ev[i].k = "Duplicate") THEN {"pubDuplicateOk"} ELSE {})
    \cup (IF k \in {"pub", "ppub", "addb"} /\ a.res \in {"rejected", "ignored"} THEN {"pub:" \o a.res} ELSE {})
    \cup (IF k = "pub" /\ a.res \in {"closed", "nilkey", "emptypid"} THEN {"pub:" \o a.res} ELSE {})
-   \cup (IF k = "pub" /\ o.mode # "" /\ a.res = "ok" THEN {"pubMode:" \o o.mode} ELSE {})
+   \cup (IF k = "pub" /\ o.mode # "" /\ a.res \in {"ok", "ok/polls=3/ms=400"} THEN {"pubMode:" \o o.mode} ELSE {})
    \cup (IF k = "rmsg" /\ a.ev = <<>> THEN {"remoteNoInterestIgnored"} ELSE {})
    \cup (IF k = "rmsg" /\ delivered /\ NSubs(S, t) = 0 /\ NRel(S, t) > 0 THEN {IF a.snd # {} THEN "relayOnlyForwarded" ELSE "relayOnlyDelivered"} ELSE {})
    \cup (IF k = "rmsg" /\ delivered /\ NSubs(S, t) > 0 /\ a.snd # {} THEN {"subscribedForwarded"} ELSE {})
